@@ -40,7 +40,12 @@ def decode(d):
         derive = d.choice(["copy", "mul", "add"])
     elif fam == "matrix":
         obj = ["matrix", gen.matrix(d)["m"], gen.matrix(d)["m"]]
+        if d.chance(1, 3):
+            # a translation in inches / millimetres stays a Length inside the matrix until it is rendered with a ppi
+            obj.append("translate(%din, %dmm) scale(2)" % (d.int(1, 5), d.int(1, 30)) if d.bool() else "translate(%dcm, %din)" % (d.int(1, 5), d.int(1, 3)))
         derive = d.choice(["copy", "invert", "matmul"])
+        if len(obj) > 3:
+            derive = "copy"  # (inverting or multiplying symbolic offsets is C04's subject and partly a known finding)
     elif fam == "color":
         obj = ["color", d.below(2 ** 32)]
         derive = "copy"
@@ -95,6 +100,8 @@ def build(obj):
     if fam == "point":
         return se.Point(obj[1][0], obj[1][1])
     if fam == "matrix":
+        if len(obj) > 3:
+            return se.Matrix(obj[3])
         return lib.mk_matrix(obj[1])
     if fam == "color":
         return se.Color("#%08x" % obj[1])
@@ -289,6 +296,16 @@ def mutate(t, mut):
             t += se.Point(val, 1.0)
         return "point:%d" % k
     if isinstance(t, se.Matrix):
+        if isinstance(t.e, se.Length):
+            # symbolic offsets: shift them in the ways a Length allows
+            k %= 3
+            if k == 0:
+                t.e += se.Length("1in")
+            elif k == 1:
+                t.post_translate(se.Length("2mm"), se.Length("0.5in"))
+            else:
+                t.f -= se.Length("3mm")
+            return "matrix-unit:%d" % k
         k %= 4
         if k == 0:
             t.post_translate(val, 2.0)
